@@ -5,6 +5,7 @@ import (
 	"time"
 
 	"gitee.com/Trisia/gotlcp/dtlcp"
+	"github.com/emmansun/gmsm/smx509"
 	"verifharness/internal/hx"
 	"verifharness/internal/pair"
 	"verifharness/internal/pki"
@@ -45,7 +46,8 @@ func dtlcpHello(ds [][]byte, typ byte) ([]byte, bool) {
 
 func dtlcpAddr(d int) *net.UDPAddr { return &net.UDPAddr{IP: net.IPv4(127, 0, 0, 1), Port: 20000 + d} }
 
-func dtlcpHandshake(dst int, server int, cs, ss []uint16, ccache, scache Cache[*dtlcp.SessionState], fault string, seed uint64, mid func()) HS {
+func dtlcpHandshake(cn Conn, ccache, scache Cache[*dtlcp.SessionState], seed uint64, mid func()) HS {
+	dst, server, cs, ss, fault := cn.Dst, cn.Server, cn.CS, cn.SS, cn.Fault
 	s := pki.Std()
 	rnd := hx.NewRand(seed)
 	ccfg := &dtlcp.Config{RootCAs: s.Root.Pool, ServerName: "test.example", Time: pki.NowFn, CipherSuites: cs,
@@ -61,6 +63,28 @@ func dtlcpHandshake(dst int, server int, cs, ss []uint16, ccache, scache Cache[*
 	}
 	if scache != nil {
 		scfg.SessionCache = scache
+	}
+	// client authentication: the server's policy, the client's certificate, and the server's two
+	// callbacks as observers (they accept everything)
+	if l := ClientLeaf(cn.Cert); l != nil {
+		ccfg.Certificates = []dtlcp.Certificate{pair.DCert(l)}
+	}
+	scfg.ClientAuth = dtlcp.ClientAuthType(cn.Auth)
+	scfg.ClientCAs = s.Root.Pool
+	vpc, vc := "x", "x"
+	scfg.VerifyPeerCertificate = func(raw [][]byte, _ [][]*smx509.Certificate) error {
+		vpc = "n"
+		if len(raw) > 0 {
+			vpc = ClientIdentity(raw[0])
+		}
+		return nil
+	}
+	scfg.VerifyConnection = func(st dtlcp.ConnectionState) error {
+		vc = "n"
+		if len(st.PeerCertificates) > 0 {
+			vc = ClientIdentity(st.PeerCertificates[0].Raw)
+		}
+		return nil
 	}
 	c, sv, ce, se, r := pair.DTLCP(ccfg, scfg, func(ce, se *pair.PacketEnd) {
 		se.SetLocalAddr(dtlcpAddr(dst))
@@ -97,6 +121,11 @@ func dtlcpHandshake(dst int, server int, cs, ss []uint16, ccache, scache Cache[*
 	if len(cst.PeerCertificates) > 0 {
 		h.PeerDER = cst.PeerCertificates[0].Raw
 	}
+	if len(sst.PeerCertificates) > 0 {
+		h.SPeerDER = sst.PeerCertificates[0].Raw
+	}
+	h.SVerified = len(sst.VerifiedChains) > 0
+	h.VPC, h.VC = vpc, vc
 	cf, sf := dtlcp.VerifFinished(c)
 	h.Fin = append(cf, sf...)
 	ce.Close()
